@@ -12,6 +12,7 @@ the unit doubled (x3) and counts only if it reproduces every time."""
 import itertools, json, os
 import vlib
 from vlib import coq_list, coq_bool
+from props import retry_rig as rig
 
 PROP = "C03"
 IMPORTS = ["Base.Str", "Model.Classify", "Proofs.Classify"]
@@ -39,6 +40,12 @@ Definition enc_desc (l : list result) : (N * N * N * list N)%type :=
   end.
 Definition enc_last (l : list result) : list N :=
   match last_status l with Some r => b2n (is_success r) :: enc_result r | None => [9] end.
+Definition real_attempt (cannot_exec : bool) (raw : N) (timed_out leaked : bool) : list N :=
+  match (if cannot_exec then Some CannotExec
+         else match decode_raw raw with Some st => Some (Ran st) | None => None end) with
+  | Some b => enc_result (attempt_of Direct b timed_out false leaked)
+  | None => [9]
+  end.
 Definition ev (t k : N) : (N * fd_event)%type :=
   (t, match k with 0 => FdData | 1 => FdEof | _ => Req end).
 """
@@ -202,6 +209,122 @@ def leak_verdicts(chk, binary, scenarios, model):
     return None
 
 
+
+# ---------------------------------------------------------------- real processes (mini rig)
+
+SIGNALS = [1, 2, 3, 4, 6, 8, 9, 10, 11, 12, 13, 14, 15, 24, 31]      # terminate by default, not job control
+RIG_LEAK_MS, RIG_SLOW_MS = 150, 700
+
+
+def rig_behaviours(r, thorough, codes):
+    """(name, behaviour, ground truth dict(cannot_exec, raw, timed_out, leaked))"""
+    out = []
+    for c in codes:
+        out.append((f"exit{c}", dict(kind="exit", code=c), dict(raw=c << 8)))
+    for sgn in (SIGNALS if thorough else r.sample(SIGNALS, 6) + [11, 9]):
+        out.append((f"sig{sgn}", dict(kind="signal", sig=sgn), dict(raw=sgn)))
+    for code in (0, 3):
+        for hold in (0, 40, 450, 700):        # leak timeout 150 ms: never within 40 % of it
+            out.append((f"hold{hold}_{code}", dict(kind="hold", code=code, hold_ms=hold),
+                        dict(raw=code << 8, leaked=hold > RIG_LEAK_MS)))
+    out.append(("sleepy0", dict(kind="sleep", ms=4000, code=0), dict(raw=0, timed_out=True)))
+    out.append(("sleepy1", dict(kind="sleep", ms=4000, code=1), dict(raw=256, timed_out=True)))
+    return out
+
+
+def doc_real(g):
+    if g.get("cannot_exec"):
+        return EXECFAIL
+    if g.get("timed_out"):
+        return TIMEOUT
+    raw = g["raw"]
+    sig = raw & 0x7f
+    return doc_cer(raw >> 8 if sig == 0 else None, sig or None, False, bool(g.get("leaked")))
+
+
+def check_real_processes(chk, binary, r, thorough):
+    all_codes = list(range(256))
+    r.shuffle(all_codes)
+    code_sets = [sorted(set([0, 1, 101, 255] + all_codes[i * 32:(i + 1) * 32])) for i in range(8)] if thorough \
+        else [sorted(set([0, 1, 2, 101, 127, 255] + all_codes[:10]))]
+    problem, mismatch, nontrivial = None, None, set()
+    for si, codes in enumerate(code_sets):
+        behs = rig_behaviours(r, thorough, codes)
+        tests = {n: dict(policy=None, default=b) for n, b, _ in behs}
+        truth = {n: g for n, _, g in behs}
+        # one flaky and one always-failing test with retries, for describe on real runs
+        two = dict(kind="fixed", count=2, delay=0, jitter=False)
+        tests["flaky"] = dict(policy=two, default=dict(kind="exit", code=0),
+                              attempts={1: dict(kind="signal", sig=6), 2: dict(kind="exit", code=4)})
+        tests["hopeless"] = dict(policy=two, default=dict(kind="exit", code=9))
+        sc = dict(profile_retries=None, leak_timeout_ms=RIG_LEAK_MS, slow_period_ms=RIG_SLOW_MS,
+                  bins={"ba": tests, "bb": {"noexec": dict(policy=None, default=dict(kind="exit", code=0))}},
+                  chmod_after_list=["bb"], threads=6)
+        truth["noexec"] = dict(cannot_exec=True, raw=0)
+        names = [n for n in truth]
+        model = dict(zip(names, vlib.coq_eval("c03r", IMPORTS, [
+            f"real_attempt {coq_bool(bool(truth[n].get('cannot_exec')))} {truth[n]['raw']} "
+            f"{coq_bool(bool(truth[n].get('timed_out')))} {coq_bool(bool(truth[n].get('leaked')))}"
+            for n in names], PRELUDE, shards=2)))
+
+        def run_once(tag):
+            case = rig.prepare(tag, sc)
+            res = vlib.run_impl(binary, "backoff", [case], shards=1)[0]
+            rig.cleanup(tag)
+            return res, rig.per_test(res)
+        res, per = run_once(f"c03_{si}")
+        if "events" not in res or "error" in res:
+            problem = problem or dict(input=dict(codes=codes), impl=res, clause="the run failed")
+            continue
+        for n in names:
+            chk.count("real_process_cases")
+            g = truth[n]
+            chk.count("real_" + ("execfail" if g.get("cannot_exec") else "timeout" if g.get("timed_out") else
+                                 "leak" if g.get("leaked") else "signal" if g["raw"] & 0x7f else
+                                 "exit0" if g["raw"] == 0 else "exit_nonzero"))
+            want = doc_real(g)
+            b = "bb" if n == "noexec" else "ba"
+            fin = (per.get((b, n)) or {}).get("finished")
+            got = fin and fin["attempts"][-1]["result"]
+            nontrivial.add(json.dumps([n.rstrip("0123456789") if n.startswith("exit") else n, want]))
+            if got != want:
+                # timing discipline: anything involving time (timeout, leak) must reproduce three times
+                timed = g.get("timed_out") or g.get("leaked") is not None or got in (TIMEOUT, LEAK) or \
+                    (got and got[0] == 2 and got[3] == 1)
+                runs = [got]
+                if timed:
+                    for k in range(3):
+                        _, per2 = run_once(f"c03_{si}_re{k}")
+                        f2 = (per2.get((b, n)) or {}).get("finished")
+                        runs.append(f2 and f2["attempts"][-1]["result"])
+                    if any(x == want for x in runs):
+                        continue
+                problem = problem or dict(
+                    input=dict(test=n, behaviour=tests.get(n, {}).get("default"), ground_truth=g,
+                               leak_timeout_ms=RIG_LEAK_MS, slow_timeout_ms=RIG_SLOW_MS),
+                    impl=runs, documented=want, model=model[n],
+                    clause=f"process behaviour {g} was reported as {got}, documented {want}")
+            elif model[n] != got and mismatch is None:
+                mismatch = dict(input=dict(test=n, ground_truth=g), impl=got, model=model[n])
+        # describe / final result on real runs
+        for n, kind, nres in (("flaky", 1, [fail(6, False), fail(None, False), PASS]),
+                              ("hopeless", 2, [fail(None, False)] * 3)):
+            chk.count("real_process_cases")
+            fin = (per.get(("ba", n)) or {}).get("finished")
+            got = fin and ([a["result"] for a in fin["attempts"]], fin["describe"], fin["last_result"])
+            if got != (nres, kind, nres[-1]):
+                problem = problem or dict(input=dict(test=n), impl=fin,
+                                          documented=dict(results=nres, describe=kind, final=nres[-1]),
+                                          clause="final result = last attempt; flaky iff passed after a failure")
+        stats = {k: res.get(k) for k in ("passed", "flaky", "failed", "exec_failed", "timed_out", "leaky")}
+        chk.sample(dict(real_run_stats=stats, tests=len(names) + 2))
+    if problem:
+        chk.violation("counterexample", "oracle:real-process", problem)
+    elif mismatch:
+        chk.violation("broken-obligation", "corr:real-process", mismatch, no_input=True)
+    return len(nontrivial)
+
+
 def run(tier, seed):
     chk = vlib.Check(PROP, tier, seed)
     gate = vlib.coq_gate(PROP)
@@ -213,7 +336,10 @@ def run(tier, seed):
     r = vlib.rng_for(seed, PROP)
     thorough = tier == "thorough"
 
-    # ---- timed leak probes first (before the machine is loaded by the parallel coqc runs)
+    # ---- real processes under the real runner, then timed leak probes (both before the machine is
+    #      loaded by the parallel coqc runs)
+    real_distinct = check_real_processes(chk, binary, vlib.rng_for(seed, PROP + ":rig"), thorough)
+
     scenarios = [c["events"] for c in corpus() if "events" in c] + leak_scenarios(r, thorough)
     leak_model = vlib.coq_eval("c03l", IMPORTS, [
         f"b2n (detect_leak {LEAK_TIMEOUT} {coq_events(s)})" for s in scenarios], PRELUDE, shards=2)
@@ -297,7 +423,10 @@ def run(tier, seed):
         "Unix only; raw wait statuses are those of terminated children (code<<8, sig|0x80*core)",
         "child_errors is abstracted to 'some read error occurred'",
         "the composition in run_test/run_test_inner (spawn error => ExecFail, timeout status overrides) is "
-        "modelled from the source and tied only by the end-to-end rig, not by a hook",
+        "tied by running the real TestRunner (public API, direct spawn) over scripted shell-script test "
+        "binaries (props/retry_rig.py): exit codes, signals, descendants holding stdout, sleeping past the "
+        "slow timeout, a binary made non-executable after listing; races near the thresholds and the "
+        "double-spawn launcher are left to the end-to-end rig",
         "leak probes use a pipe held by the harness instead of a descendant process; EOF never within 40 % "
         "of the leak timeout; timer-vs-event ties are not exercised",
         "F9 (launcher maps an exec error to exit 70 => FAIL) is carried in the model and proved/refuted "
@@ -308,16 +437,19 @@ def run(tier, seed):
         gate, "make -C coq Properties/C03.vo && coqc gen/assump_C03.v (Print Assumptions)",
         ["Coq 8.16.1 kernel + vm_compute",
          "hand-written model Model/Classify.v tied by corr:create-execution-result, corr:describe, "
-         "corr:detect-leak (hook H3)", "Python generators/oracles in props/C03.py", "harness/src/classify.rs"],
+         "corr:detect-leak (hook H3), corr:real-process (real TestRunner over scripted processes)",
+         "Python generators/oracles in props/C03.py, props/retry_rig.py", "harness/src/{classify,backoff}.rs"],
         dict(evaluations=chk.counts.get("cer_cases", 0) + chk.counts.get("describe_cases", 0) +
-             chk.counts.get("leak_probe_cases", 0),
-             distinct_nontrivial=nontrivial, exhaustive=True,
+             chk.counts.get("leak_probe_cases", 0) + chk.counts.get("real_process_cases", 0),
+             distinct_nontrivial=nontrivial + real_distinct, exhaustive=True,
              rule="create_execution_result: every (exit code 0-255 | signal 1-126 x core bit) x read-error flag x "
                   "leaked flag, enumerated completely; describe: every list of attempt results of length 0.."
                   f"{maxlen} over an 8-result alphabet, enumerated completely; non-trivial = non-zero wait status, "
                   "or at least two attempts; all enumerated cases are distinct by construction; plus timed "
-                  "leak probes (sampled, not exhaustive)",
-             traces_validated_against_impl=chk.counts.get("leak_probe_cases", 0)))
+                  "leak probes and real-process runs of the real runner (sampled, not exhaustive; "
+                  "distinct by behaviour and documented result)",
+             traces_validated_against_impl=chk.counts.get("leak_probe_cases", 0) +
+             chk.counts.get("real_process_cases", 0)))
 
 
 def replay(path, seed):
